@@ -152,7 +152,10 @@ let () = iter_lines (fun line ->
     print_endline (tsweep api init restore caps (int_of_string t0) slices heads post pre)
   | "CSPEC" :: init :: members ->
     let ov = if init = "new" then None else Some (n_of_int (int_of_string (Stdlib.String.sub init 1 (Stdlib.String.length init - 1)))) in
-    (match concat_spec ov (Stdlib.List.map ns_of_hex members) with
-     | None -> print_endline "NONE"
-     | Some b -> print_endline ("OK " ^ hex_of_ns b))
+    let ms = Stdlib.List.map ns_of_hex members in
+    (* M = the hypothesis markers_ok of theorem C03_bits (coq/spec/ConcatMarker.v) on this list *)
+    let mk = if markers_ok ov ms then " M=1" else " M=0" in
+    (match concat_spec ov ms with
+     | None -> print_endline ("NONE" ^ mk)
+     | Some b -> print_endline ("OK " ^ hex_of_ns b ^ mk))
   | _ -> print_endline "BADREQ")
